@@ -352,6 +352,8 @@ func (s *sealer) encBytes(e *aEnc, ct *aCt) []byte {
 		return []byte{}
 	case "malformed":
 		return bytes.Repeat([]byte{9}, 31)
+	case "loworder":
+		return lowOrderEnc(e.Id)
 	}
 	if ct != nil && !ct.Zero && ct.Kid == e.To && ct.Enc == e.Id {
 		_, enc := s.sender(ct.Kid, ct.Enc, ct.Suite, ct.Info)
@@ -535,7 +537,19 @@ func (s *sealer) payload(ct *aCt, o encOpts, op string) []byte {
 	if encFault != nil {
 		encFault.enabled = false
 	}
-	snd, _ := s.sender(ct.Kid, ct.Enc, ct.Suite, ct.Info)
+	var snd interface {
+		Seal(aad, plaintext []byte) ([]byte, error)
+	}
+	if ct.Enc == "e5" || ct.Enc == "e6" {
+		// sealed without anybody's key: the context a recipient would derive from an empty / all-zero DH output
+		dh := []byte(nil)
+		if ct.Enc == "e6" {
+			dh = make([]byte, 32)
+		}
+		snd = newManualSender(lowOrderEnc(ct.Enc), s.kr.privs[ct.Kid].PublicKey().Bytes(), dh, ct.Suite, append([]byte("tls ech\x00"), s.kr.cfgs[ct.Info]...))
+	} else {
+		snd, _ = s.sender(ct.Kid, ct.Enc, ct.Suite, ct.Info)
+	}
 	aad := s.helloBody(ct.Aad, outerRandom, o, op, len(pt)+16)
 	if encFault != nil {
 		encFault.enabled = saved
